@@ -8,6 +8,7 @@ import ZodbModel.History
 import ZodbModel.Pack
 import ZodbModel.Demo
 import ZodbModel.Mvcc
+import Proofs.PackBasic
 namespace Proofs.Links
 open ZodbModel
 
@@ -63,28 +64,22 @@ def loadP : Except History.Err (Option (Bytes × Nat × Option Nat)) → Pack.Lo
   | .ok none => .none
   | .ok (some (d, t, e)) => .some d t e
 
-theorem recOfP (refs : Bytes → List Nat) (t : History.Txn) (o : Nat)
-    (hu : (t.recs.map (·.oid)).Nodup) :
+/-- both models take the LAST record of an oid in a transaction (`Proofs.Pack.recOf_eq_last`) -/
+theorem recOfP (refs : Bytes → List Nat) (t : History.Txn) (o : Nat) :
     (txnP refs t).recOf o = (t.recOf o).map (recP refs) := by
-  unfold Pack.Txn.recOf History.Txn.recOf txnP
-  simp only [List.find?_map]
-  have hp : t.recs.Pairwise (fun a b => ¬ (((fun r : Pack.Rec => r.oid == o) ∘ recP refs) a = true ∧
-      ((fun r : Pack.Rec => r.oid == o) ∘ recP refs) b = true)) := by
-    have := List.pairwise_map.1 hu
-    refine this.imp ?_
-    intro a b hab hc
-    simp only [Function.comp, recP, beq_iff_eq] at hc
-    exact hab (hc.1.trans hc.2.symm)
-  rw [find?_eq_filter_getLast? _ _ hp]
+  rw [Proofs.Pack.recOf_eq_last]
+  unfold History.Txn.recOf txnP
+  simp only
+  rw [List.filter_map, List.getLast?_map]
   rfl
 
-theorem recsOfP (refs : Bytes → List Nat) (h : History.History) (o : Nat) (hu : UniqueOids h) :
+theorem recsOfP (refs : Bytes → List Nat) (h : History.History) (o : Nat) :
     Pack.recsOf (histP refs h) o =
       (History.revs h o).map (fun rv => (rv.tid, recP refs rv.record)) := by
   unfold Pack.recsOf History.revs histP
   rw [List.filterMap_map, List.map_filterMap]
-  refine filterMap_congr' (fun t ht => ?_)
-  simp only [Function.comp, recOfP refs t o (hu t ht), Option.map_map]
+  refine filterMap_congr' (fun t _ => ?_)
+  simp only [Function.comp, recOfP refs t o, Option.map_map]
   rfl
 
 theorem packFirst (refs : Bytes → List Nat) (l : List History.Rev) (b : Nat) :
@@ -101,10 +96,10 @@ theorem packLast (refs : Bytes → List Nat) (l : List History.Rev) (b : Nat) :
   rw [← List.map_reverse, List.find?_map, List.getLast?_filter]; rfl
 
 /-- `Pack.loadBefore` on the translated history is `History.loadBefore` -/
-theorem loadBeforeP (refs : Bytes → List Nat) (h : History.History) (o b : Nat) (hu : UniqueOids h) :
+theorem loadBeforeP (refs : Bytes → List Nat) (h : History.History) (o b : Nat) :
     Pack.loadBefore (histP refs h) o b = loadP (History.loadBefore h o b) := by
   unfold Pack.loadBefore Pack.lastBefore Pack.firstFrom History.loadBefore
-  rw [recsOfP refs h o hu]
+  rw [recsOfP refs h o]
   simp only [List.isEmpty_map]
   cases hE : (History.revs h o).isEmpty with
   | true => simp [loadP]
